@@ -62,7 +62,7 @@ def gen_form(rnd):
     if k < 0.4:
         return ("qual", None if rnd.random() < 0.6 else rnd.choice(ALIASES))
     if k < 0.7:
-        names = rnd.sample(PUB + PRIV, rnd.randint(1, 3))
+        names = rnd.sample(PUB + PRIV, rnd.randint(0, 3))
         return ("import", [(a, a if rnd.random() < 0.5 or a < 0 else rnd.choice(PUB + ALIASES)) for a in names])
     return ("unqual",)
 
